@@ -162,10 +162,13 @@ def build_runner():
     sp = os.path.join(RUNNER_DIR, "runner.stamp")
     if os.path.exists(RUNNER_BIN) and os.path.exists(sp) and open(sp).read() == stamp:
         return
-    rocq_make(["Extract.vo"])   # dependencies
-    r = run(["coqc", "-Q", ROCQ, "ChessV", os.path.join(ROCQ, "Extract.v")], cwd=RUNNER_DIR, timeout=600)
-    if r.returncode != 0:
-        raise Broken("extraction of the model fails", r.stdout[-2000:])
+    # Extract.v is part of the project: make rebuilds it (and so re-extracts rocq/model.ml)
+    # whenever any file it depends on, generated ones included, has changed
+    rocq_make(["Extract.vo"])
+    for fn in ("model.ml", "model.mli"):
+        if not os.path.exists(os.path.join(ROCQ, fn)):
+            raise Broken("extraction of the model produced no " + fn)
+        shutil.copyfile(os.path.join(ROCQ, fn), os.path.join(RUNNER_DIR, fn))
     r = run(["ocamlfind", "ocamlopt", "-w", "-a", "-inline", "50", "model.mli", "model.ml", "driver.ml", "-o", "runner"],
             cwd=RUNNER_DIR, timeout=600)
     if r.returncode != 0:
@@ -429,6 +432,7 @@ def run_property(pid, tier, seed, replay=None):
     samples = []
     distinct = 0
     broken = None
+    n_jobs = 0
     try:
         translate()
         build_harness(fresh_tables=(tier == "thorough" and cfg.get("fresh_tables", False)))
@@ -456,6 +460,7 @@ def run_property(pid, tier, seed, replay=None):
                     args = list(spec["args"]) + (["shard=%d" % s, "shards=%d" % shards] if shards > 1 else [])
                     jobs.append((args, "s%d_%d" % (k, s)))
         results = []
+        n_jobs = len(jobs)
 
         def one(job):
             args, name = job
@@ -549,11 +554,15 @@ def run_property(pid, tier, seed, replay=None):
         "known_findings_reported": sorted(known_printed),
         "explanation": cfg.get("explanation", ""),
     }
+    level = "proof"
+    coverage["programs"] = n_jobs
+    coverage["disagreements_checked"] = len(failures)
     if thm["obligations"] == 0:
-        # no theorem yet: fall back to the exploration-style keys only
+        # no theorem in the cone yet: this run is a validation of the model against the code only
         coverage.pop("obligations")
         coverage.pop("discharged")
-    write_evidence(pid, tier, seed, cfg.get("level", "proof"), coverage, PROPS.ASSUMPTIONS.get(pid, []), wall, len(real) + (1 if broken else 0))
+        level = "translation_validation"
+    write_evidence(pid, tier, seed, level, coverage, PROPS.ASSUMPTIONS.get(pid, []), wall, len(real) + (1 if broken else 0))
     log("%s %s: %d operations compared, %d theorem obligations in cone, %d failure(s), %.1fs" % (
         pid, tier, total_ops, thm["obligations"], len(real) + (1 if broken else 0), wall))
     return exit_code
